@@ -504,12 +504,17 @@ def run_lemma(cfg_key, lid, env):
         return False
     # the same value handed to the handler once more (a retry, the same payload structured as two root types): the
     # decision has to be the same - a handler that consumed parts of the caller's object fails here
+    from . import xhrt
+
+    xhrt.KEY_ORDER[0] = 1  # ... and this time the object presents its keys in the opposite order
     try:
         r2 = lm.handler(v, lm.pos.annotation)
     except Inconclusive:
         raise
     except Exception:
         return False
+    finally:
+        xhrt.KEY_ORDER[0] = 0
     return acceptable(lm.d, env, v, r2, lm.pos.annotation)
 
 
@@ -525,14 +530,23 @@ def run_lemma_extra(cfg_key, lid, env_with, env_without):
         raise
     except Exception:
         return True  # failure without the extra key is C14/C01's finding, not C15's
-    v1 = materialize(lm.d, env_with)
-    try:
-        r1 = lm.handler(v1, lm.pos.annotation)
-    except Inconclusive:
-        raise
-    except Exception:
-        return False
-    return same_decision(r0, v0, r1, v1)
+    from . import xhrt
+
+    # the undeclared member last, first and between the declared members
+    for mode in (0, 1, 2):
+        v1 = materialize(lm.d, env_with)
+        xhrt.KEY_ORDER[0] = mode
+        try:
+            r1 = lm.handler(v1, lm.pos.annotation)
+        except Inconclusive:
+            raise
+        except Exception:
+            return False
+        finally:
+            xhrt.KEY_ORDER[0] = 0
+        if not same_decision(r0, v0, r1, v1):
+            return False
+    return True
 
 
 def same_decision(r0, v0, r1, v1):
